@@ -26,7 +26,7 @@ from vlib.ref import globlang as G
 ID = "C17"
 LEVEL = "exploration"
 RULE = (
-    "dep5 = header (Format, optional Upstream-Name / Upstream-Contact (1..2) / Source / Disclaimer / Comment) + 1..5 Files paragraphs, each 1..3 patterns "
+    "dep5 = header (Format, optional Upstream-Name / Upstream-Contact (1..2) / Source / Disclaimer / Comment / Copyright + License of the work as a whole) + 1..5 Files paragraphs, each 1..3 patterns "
     "over {a b . / * ? \\* \\? \\\\} (ALL patterns of length <= 3 in quick / <= 4 in thorough as single-paragraph projects, random longer ones), 1..3 "
     "copyright lines, licence expression (optionally with a licence text body), optional Comment.  Tree: for every pattern several paths obtained by "
     "instantiating its wildcards (also with '/' and the empty string) and by one-character mutations, plus files with their own header (aggregation), whose notice is sometimes spelled exactly like a Copyright line of the paragraphs.  "
@@ -111,7 +111,9 @@ def dep5_case(draw):
         paras.append(para)
     header = {"name": draw(st.sampled_from([None, "proj"])), "contacts": draw(st.lists(st.sampled_from(["Jane <j@example.org>", "https://example.org/contact"]), max_size=2, unique=True)),
               "source": draw(st.sampled_from([None, "https://example.org/src"])), "disclaimer": draw(st.sampled_from([None, "Not official."])),
-              "comment": draw(st.sampled_from([None, "Header comment."]))}
+              "comment": draw(st.sampled_from([None, "Header comment."])),
+              # licence of the work as a whole in the header paragraph (DEP5 allows it; it applies to no file)
+              "whole": draw(st.sampled_from([None, None, None, ("2000 The Whole Work", "GPL-3.0-or-later"), ("2000 The Whole Work", "LicenseRef-whole")]))}
     extra = draw(st.lists(st.sampled_from(["src/own.py", "own.c", "a/own.txt"]), max_size=2, unique=True))
     # the in-file notice of the files with their own header is sometimes spelled exactly like a Copyright line of the paragraphs
     own_cop = draw(st.sampled_from([None, None, "Copyright (C) 1999 Third, Inc.", "© Fourth <f@example.org>"]))
@@ -133,6 +135,9 @@ def render_dep5(c):
         out.append(f"Disclaimer: {h['disclaimer']}")
     if h["comment"]:
         out.append(f"Comment: {h['comment']}")
+    if h.get("whole"):
+        out.append(f"Copyright: {h['whole'][0]}")
+        out.append(f"License: {h['whole'][1]}")
     out.append("")
     for p in c["paras"]:
         out.append("Files: " + p["files"][0])
